@@ -26,7 +26,7 @@ func c15Run(c *h.Ctx) {
 		Policies: []string{"aggro", "random", "callstation"},
 	}
 	if at == 0 {
-		po.Gen.ActionTime = 0
+		po.Gen.ZeroActionTime = true
 	}
 	var lastCallWall int64
 	seenState := map[string]bool{}
@@ -151,9 +151,9 @@ func c15Run(c *h.Ctx) {
 		c.InconclusiveW(fmt.Sprintf("foreign: hand %d did not settle within the watchdog", p.HandNo), p.witness())
 		return
 	}
-	c.Feature(fmt.Sprintf("action-time=%d", at))
+	c.Feature(fmt.Sprintf("action-time=%d", p.tableNow().Meta.ActionTime)) // what the engine was really configured with
 	c.Nontrivial()
-	c.Sample(map[string]interface{}{"cfg": p.Cfg, "action_time": at, "hands": len(p.SS.Hands), "extensions": exts, "slow_turns": thinks})
+	c.Sample(map[string]interface{}{"cfg": p.Cfg, "action_time": p.tableNow().Meta.ActionTime, "hands": len(p.SS.Hands), "extensions": exts, "slow_turns": thinks})
 }
 
 func init() {
